@@ -21,8 +21,8 @@ EXEMPT = {
     ("kanata_keyberon::layout::Layout", "rpt_action"): "taken out and put back inside do_action while a repeat runs (event-driven, within one call); nothing counts it down",
     ("kanata_state_machine::oskbd::simulated::LogFmt", "ticks"): "feature simulated_output (simulator binaries only): tick counter of the textual output log, no effect on emitted events; the simulator never blocks",
     ("kanata_state_machine::oskbd::simulated::Outputs", "ticks"): "feature simulated_output (simulator binaries only): tick counter of the recorded output, no effect on emitted events; the simulator never blocks",
-    ("kanata_state_machine::kanata::Kanata", "prev_keys"): "recomputed from layout.states on every tick",
-    ("kanata_state_machine::kanata::Kanata", "cur_keys"): "recomputed from layout.states on every tick",
+    ("kanata_state_machine::kanata::Kanata", "prev_keys"): "what was sent to the OS; a difference to the layout's key states that is still to be sent is flagged by keystate_changed_after_read, which the predicate reads",
+    ("kanata_state_machine::kanata::Kanata", "cur_keys"): "scratch list rebuilt from the layout's key states on every tick (see prev_keys)",
     ("kanata_state_machine::kanata::Kanata", "time_remainder"): "wall-clock bookkeeping, reset on wake-up (R-LOOP)",
     ("kanata_state_machine::kanata::Kanata", "last_tick"): "wall-clock bookkeeping, reset on wake-up (R-LOOP)",
     ("kanata_state_machine::kanata::Kanata", "ticks_since_idle"): "the idle counter itself; read by can_block through counting_idle_ticks",
@@ -30,11 +30,12 @@ EXEMPT = {
     ("kanata_state_machine::oskbd::linux::KbdOut", "accumulated_scroll"): "advanced only while a scroll state is active (covered by scroll_state)",
     ("kanata_state_machine::oskbd::linux::KbdOut", "accumulated_hscroll"): "advanced only while a scroll state is active (covered by hscroll_state)",
     ("kanata_state_machine::kanata::sequences::SequenceState", "noerase_count"): "changed only by a key press in sequence mode / at sequence termination (event-driven)",
-    ("kanata_keyberon::layout::Layout", "states"): "read by is_idle for the pending custom states; other removals are release/cancel events",
+    ("kanata_keyberon::layout::Layout", "states"): "read by is_idle for the pending custom states (R-IDLE-STATES); removals after the keys were read for a tick are flagged by keystate_changed_after_read",
+    ("kanata_keyberon::layout::OneShotState", "timeout"): "counts down only while OneShotState.keys is non-empty (tick_osh returns early otherwise); the predicate requires keys to be empty",
     ("kanata_parser::cfg::key_override::OverrideStates", "mods_pressed"): "per-tick scratch recomputed from the key list (R-OVR-SCRATCH)",
     ("kanata_parser::cfg::key_override::OverrideStates", "oscs_to_add"): "per-tick scratch recomputed from the key list (R-OVR-SCRATCH)",
     ("kanata_parser::cfg::key_override::OverrideStates", "oscs_to_remove"): "per-tick scratch recomputed from the key list (R-OVR-SCRATCH)",
-    ("kanata_state_machine::kanata::Kanata", "movemouse_buffer"): "filled and drained within one tick while a move-mouse state is active",
+    ("kanata_state_machine::kanata::Kanata", "movemouse_buffer"): "written only while a move_mouse_state_* is Some (which the predicate reads) and cleared by every MoveMouse release",
     ("kanata_state_machine::kanata::Kanata", "unmodded_keys"): "changed by unmod press/release events only",
     ("kanata_state_machine::kanata::Kanata", "unshifted_keys"): "changed by unshift press/release events only",
     ("kanata_state_machine::kanata::Kanata", "move_mouse_speed_modifiers"): "changed by press/release events only",
@@ -47,24 +48,21 @@ EXEMPT = {
     ("kanata_state_machine::kanata::dynamic_macro::DynamicMacroRecordState", "current_delay"):
         "recorded inter-key delay; it stops counting only once every covered timer has expired, and replay decisions depend only "
         "on those timers (triaged with notes/triage_harness.rs.txt: stepper and blocking loop replay identically)",
-    ("kanata_keyberon::layout::OneShotState", "pause_input_processing_ticks"):
-        "only delays dequeuing of Layout.queue, which the predicate reads: with a non-empty queue kanata is not idle and the pause "
-        "counts down; with an empty queue it gates nothing (triaged: no output difference could be produced)",
     ("kanata_keyberon::layout::OneShotState", "ticks_to_ignore_events"):
         "consulted only while a one-shot is active, and an active one-shot (keys non-empty, timeout > 0) makes the predicate false "
         "(triaged: no output difference could be produced)",
     ("kanata_state_machine::kanata::sequences::SequenceState", "ticks_until_timeout"): "counts only while activity != Inactive, which the predicate reads through is_inactive()",
     ("kanata_state_machine::kanata::sequences::SequenceState", "overlapped_sequence"): "cleared on key-state changes while a sequence is active (event-driven); activity is read by the predicate through is_inactive()",
     ("kanata_state_machine::kanata::sequences::SequenceState", "raw_oscs"): "cleared when a sequence is activated (a key press); activity is read by the predicate through is_inactive()",
-    ("kanata_state_machine::oskbd::linux::KbdOut", "raw_buf"): "output write buffer: filled and flushed inside one write call, carries nothing from tick to tick",
+    ("kanata_state_machine::oskbd::linux::KbdOut", "raw_buf"): "output write buffer: filled by write_raw from the input thread, the tick path only flushes it; it holds no time-dependent state",
     ("kanata_state_machine::kanata::sequences::SequenceState", "sequence"): "changes on key presses in sequence mode only; activity is read by the predicate",
     ("kanata_state_machine::kanata::output_logic::zippychord::ZchDynamicState", "zchd_ticks_until_enabled"): "counts only in state WaitEnable; zchd_enabled_state is read by zchd_is_idle",
     ("kanata_state_machine::kanata::output_logic::zippychord::ZchDynamicState", "zchd_ticks_until_disable"): "non-zero only while input keys are held; zchd_input_keys is read by zchd_is_idle",
-    ("kanata_state_machine::kanata::output_logic::zippychord::ZchDynamicState", "zchd_characters_to_delete_on_next_activation"): "changed by key presses only (event-driven)",
-    ("kanata_state_machine::kanata::output_logic::zippychord::ZchDynamicState", "zchd_prior_activation_output_count"): "changed by key presses only (event-driven)",
+    ("kanata_state_machine::kanata::output_logic::zippychord::ZchDynamicState", "zchd_characters_to_delete_on_next_activation"): "set by key presses; also cleared from zchd_tick by the chord-deadline soft reset (covered: the deadline counts only while input keys are held, which the predicate reads) and by the 10 s forced reset (the known finding zchd_ticks_since_state_change)",
+    ("kanata_state_machine::kanata::output_logic::zippychord::ZchDynamicState", "zchd_prior_activation_output_count"): "set by key presses; also cleared from zchd_tick by the chord-deadline soft reset (covered: the deadline counts only while input keys are held, which the predicate reads) and by the 10 s forced reset (the known finding zchd_ticks_since_state_change)",
     ("kanata_state_machine::kanata::output_logic::zippychord::ZchDynamicState", "zchd_same_hold_activation_count"): "changed by key presses only (event-driven)",
-    ("kanata_state_machine::kanata::output_logic::zippychord::ZchDynamicState", "zchd_prior_activation"): "changed by key presses only (event-driven)",
-    ("kanata_state_machine::kanata::output_logic::zippychord::ZchDynamicState", "zchd_prioritized_chords"): "changed by key presses only (event-driven)",
+    ("kanata_state_machine::kanata::output_logic::zippychord::ZchDynamicState", "zchd_prior_activation"): "set by key presses; also cleared from zchd_tick by the chord-deadline soft reset (covered: the deadline counts only while input keys are held, which the predicate reads) and by the 10 s forced reset (the known finding zchd_ticks_since_state_change)",
+    ("kanata_state_machine::kanata::output_logic::zippychord::ZchDynamicState", "zchd_prioritized_chords"): "set by key presses; also cleared from zchd_tick by the chord-deadline soft reset (covered: the deadline counts only while input keys are held, which the predicate reads) and by the 10 s forced reset (the known finding zchd_ticks_since_state_change)",
 }
 
 
@@ -103,6 +101,17 @@ def cover(prog, whole_reads):
                                 out.add((b, f2["name"]))
                                 work.append((b, f2["name"]))
     return out
+
+
+# exemptions that are only valid while the idle predicate reads some other field
+EXEMPT_NEEDS = {
+    ("kanata_state_machine::kanata::Kanata", "prev_keys"): ("kanata_state_machine::kanata::Kanata", "keystate_changed_after_read"),
+    ("kanata_state_machine::kanata::Kanata", "cur_keys"): ("kanata_state_machine::kanata::Kanata", "keystate_changed_after_read"),
+    ("kanata_keyberon::layout::Layout", "states"): ("kanata_state_machine::kanata::Kanata", "keystate_changed_after_read"),
+    ("kanata_keyberon::layout::OneShotState", "timeout"): ("kanata_keyberon::layout::OneShotState", "keys"),
+    ("kanata_keyberon::layout::OneShotState", "released_keys"): ("kanata_keyberon::layout::OneShotState", "keys"),
+    ("kanata_keyberon::layout::OneShotState", "other_pressed_keys"): ("kanata_keyberon::layout::OneShotState", "keys"),
+}
 
 
 def self_updates(f):
@@ -196,6 +205,9 @@ def run(prog):
     for (a, fld), sites in sorted(T.items()):
         covered = (a, fld) in I
         ex = EXEMPT.get((a, fld))
+        need = EXEMPT_NEEDS.get((a, fld))
+        if ex is not None and need is not None and need not in I and need not in idle["reads"]:
+            ex = None   # the exemption leans on the predicate reading another field, which it no longer does
         res.inst("%s.%s" % (a, fld), covered=covered, exempt=ex, sites=[s[0] + "@" + s[1].split("::")[-1] for s in sites[:3]])
         ok = covered or ex is not None
         res.oblige(ok)
@@ -273,7 +285,7 @@ def run_keytiming(prog):
 
 STATE_VARIANT_EXEMPT = {
     "FakeKey": "a key held by a running macro: exists only while that macro is in active_sequences, which the predicate reads",
-    "Tombstone": "replaced and removed within the tick that creates it",
+    "Tombstone": "an inert marker (no key code, coordinate or layer; nothing reads it), removed by the next tick that reports no custom event",
 }
 
 
